@@ -15,7 +15,8 @@ Proof.
   - apply Qred_complete. rewrite Qred_correct. ring.
 Qed.
 
-Definition survives (sk off : Q) (c : caption) : bool := Qle_bool 0 (c_start (retime sk off c)).
+Lemma survives_retime : forall sk off c, survives sk off c = Qle_bool 0 (c_start (retime sk off c)).
+Proof. intros. unfold survives. symmetry. apply Qle_bool_comp. apply (proj1 (retime_affine sk off c)). Qed.
 
 Lemma filter_map_comm : forall (A B : Type) (f : A -> B) (p : B -> bool) l,
   filter p (map f l) = map f (filter (fun x => p (f x)) l).
@@ -29,7 +30,9 @@ Theorem adjust_compose : forall sk1 off1 sk2 off2 caps,
   = adjust_lang (sk1 * sk2) (off1 * sk2 + off2) (filter (survives sk1 off1) caps).
 Proof.
   intros. rewrite !adjust_lang_filter_map.
-  rewrite (filter_map_comm _ _ (retime sk1 off1)). fold (survives sk1 off1).
+  rewrite (filter_map_comm _ _ (retime sk1 off1)).
+  rewrite (filter_ext (fun x => Qle_bool 0 (c_start (retime sk1 off1 x))) (survives sk1 off1))
+    by (intros c; symmetry; apply survives_retime).
   rewrite map_map. f_equal. apply map_ext. intros c. apply retime_compose.
 Qed.
 
